@@ -12,7 +12,7 @@ VM_SOURCES = ['/verif/harness/w_vm.cpp', 'runtime/runtime.cpp', 'runtime/frame.c
               'operators/ops_text.cpp', 'operators/dlops.cpp', 'parser/assembly/parser.tab.cc', 'parser/assembly/assembly_parser.cpp', 'parser/sqf/sqf_formatter.cpp']
 VM_ROOTS = ['w_vm_new', 'w_vm_delete', 'w_vm_runtime', 'w_vm_run_sqf', 'w_vm_state', 'w_vm_execute', 'w_vm_context_count', 'w_val_kind', 'w_val_scalar', 'w_val_bool', 'w_val_strlen',
             'w_val_strcopy', 'w_val_arrlen', 'w_val_arrat', 'w_val_dataptr', 'w_val_tostring', 'w_vm_compile', 'w_vm_push_code', 'w_iset_size', 'w_iset_tostring', 'w_iset_free',
-            'w_vm_mon_enable', 'w_vm_set_cfg', 'w_ctx_values_size', 'w_ctx_frames_size', 'w_ctx_frame_vsp', 'w_ctx_value_at', 'w_ctx_ptr', 'w_ctx_suspended', 'w_vm_parse_config', 'w_vm_preprocess', 'w_vm_register_dummy', 'w_str_quote', 'w_str_unquote', 'w_vm_prettify', 'w_val_new_scalar', 'w_val_new_bool', 'w_val_new_string', 'w_val_new_nil', 'w_val_new_array', 'w_val_equals', 'w_val_hash', 'w_vm_add_mapping', 'w_vm_get_info', 'w_vm_read_file', 'w_vm_run_sqf_at']
+            'w_vm_mon_enable', 'w_vm_set_cfg', 'w_ctx_values_size', 'w_ctx_frames_size', 'w_ctx_frame_vsp', 'w_ctx_value_at', 'w_ctx_ptr', 'w_ctx_suspended', 'w_vm_parse_config', 'w_vm_preprocess', 'w_vm_register_dummy', 'w_str_quote', 'w_str_unquote', 'w_vm_prettify', 'w_val_new_scalar', 'w_val_new_bool', 'w_val_new_string', 'w_val_new_nil', 'w_val_new_array', 'w_val_equals', 'w_val_hash', 'w_vm_add_mapping', 'w_vm_get_info', 'w_vm_read_file', 'w_vm_run_sqf_at', 'w_vm_add_pbo']
 OPS = dict(generic=1, logic=2, math=4, string=8, hashmap=16, namespace=32, sqfvm=64, config=128, diag=256, text=512)
 OPS_DEFAULT = 1 | 2 | 4 | 8 | 16 | 32 | 64 | 128 | 256 | 512
 
